@@ -9,6 +9,10 @@ one() {
   D=$(mktemp -d /tmp/rc.XXXXXX); rmdir $D
   git -C /repo worktree add -q $D HEAD || { echo "$diff: worktree failed"; return; }
   if ! (cd $D && git apply $diff 2>/dev/null); then echo "$diff: APPLY FAILED"; git -C /repo worktree remove --force $D; return; fi
+  if [ -n "${RC_FULL:-}" ]; then
+    if ! (cd $D && go build ./... >/dev/null 2>&1); then echo "$diff: BUILD FAILED"; fi
+    nf=$(cd $D && go test -vet=off -count=1 ./... 2>&1 | grep -c '^FAIL\|^--- FAIL'); [ "$nf" != "0" ] && echo "$diff: SUITE FAILS ($nf lines)"
+  fi
   out=$(/verif/bin/zogcheck -prop all -repo $D -verif $RCV 2>&1 | grep -E "^(VIOLATED|UNDECIDED|BROKEN|panic|fatal)" | cut -c1-300 | sed "s#$D/##g" | head -${RC_LINES:-8})
   if [ -z "$out" ]; then echo "$(echo $diff | sed 's#/verif/robust/##'): silent"; else echo "$(echo $diff | sed 's#/verif/robust/##'): ALARM"; echo "$out" | sed 's/^/    /'; fi
   git -C /repo worktree remove --force $D
